@@ -8,7 +8,6 @@ import (
 	"sort"
 	"testing"
 
-	vmcommon "github.com/ElrondNetwork/elrond-vm-common"
 	"pgregory.net/rapid"
 )
 
@@ -106,42 +105,42 @@ func c18Script(spec WorldSpec) []Op {
 	self := func(fn string, who []byte, args ...[]byte) Op { return call(sh(who), fn, who, who, args...) }
 	system := func(fn string, rcv []byte, args ...[]byte) Op { return call(sh(rcv), fn, sys, rcv, args...) }
 	ops := []Op{
-		system(vmcommon.BuiltInFunctionESDTTransfer, u0, F, []byte{100}),
-		system(vmcommon.BuiltInFunctionSetESDTRole, u0, F, []byte(vmcommon.ESDTRoleLocalMint), []byte(vmcommon.ESDTRoleLocalBurn)),
-		system(vmcommon.BuiltInFunctionSetESDTRole, u0, S, []byte(vmcommon.ESDTRoleNFTCreate), []byte(vmcommon.ESDTRoleNFTAddQuantity), []byte(vmcommon.ESDTRoleNFTBurn), []byte(vmcommon.ESDTRoleNFTAddURI), []byte(vmcommon.ESDTRoleNFTUpdateAttributes)),
-		self(vmcommon.BuiltInFunctionESDTLocalMint, u0, F, []byte{7}),
-		self(vmcommon.BuiltInFunctionESDTLocalBurn, u0, F, []byte{3}),
-		call(sh(u0), vmcommon.BuiltInFunctionESDTBurn, u0, sys, F, []byte{4}),
-		call(sh(u0), vmcommon.BuiltInFunctionESDTTransfer, u0, u1, F, []byte{10}),
-		self(vmcommon.BuiltInFunctionESDTNFTCreate, u0, S, []byte{9}, []byte("name"), []byte{5}, []byte("hash"), []byte("attrs"), []byte("uri")),
-		self(vmcommon.BuiltInFunctionESDTNFTAddQuantity, u0, S, []byte{1}, []byte{6}),
-		self(vmcommon.BuiltInFunctionESDTNFTBurn, u0, S, []byte{1}, []byte{2}),
-		self(vmcommon.BuiltInFunctionESDTNFTAddURI, u0, S, []byte{1}, []byte("uri2")),
-		self(vmcommon.BuiltInFunctionESDTNFTUpdateAttributes, u0, S, []byte{1}, []byte("attrs2")),
-		self(vmcommon.BuiltInFunctionESDTNFTTransfer, u0, S, []byte{1}, []byte{3}, u1),
-		self(vmcommon.BuiltInFunctionMultiESDTNFTTransfer, u0, u1, []byte{2}, F, []byte{0}, []byte{5}, S, []byte{1}, []byte{2}),
-		system(vmcommon.BuiltInFunctionESDTFreeze, u1, F),
-		call(sh(u1), vmcommon.BuiltInFunctionESDTTransfer, u1, u0, F, []byte{1}), // must fail: frozen
-		system(vmcommon.BuiltInFunctionESDTUnFreeze, u1, F),
-		call(sh(u1), vmcommon.BuiltInFunctionESDTTransfer, u1, u0, F, []byte{1}), // must work again
-		system(vmcommon.BuiltInFunctionESDTFreeze, u1, F),
-		system(vmcommon.BuiltInFunctionESDTWipe, u1, F),
-		call(sh(u0), vmcommon.BuiltInFunctionESDTPause, sys, refSystemAccount, F),
-		call(sh(u0), vmcommon.BuiltInFunctionESDTTransfer, u0, u1, F, []byte{1}), // must fail: paused
-		call(sh(u0), vmcommon.BuiltInFunctionESDTUnPause, sys, refSystemAccount, F),
-		call(sh(u0), vmcommon.BuiltInFunctionESDTTransfer, u0, u1, F, []byte{1}),
-		system(vmcommon.BuiltInFunctionUnSetESDTRole, u0, F, []byte(vmcommon.ESDTRoleLocalMint)),
-		self(vmcommon.BuiltInFunctionESDTLocalMint, u0, F, []byte{7}), // must fail: role gone
-		system(vmcommon.BuiltInFunctionESDTNFTCreateRoleTransfer, u0, S, u1),
-		self(vmcommon.BuiltInFunctionESDTNFTCreate, u1, S, []byte{1}, []byte("n2"), []byte{}, []byte("h2"), []byte{}, []byte("u")),
-		self(vmcommon.BuiltInFunctionSaveKeyValue, u0, []byte("k"), []byte("v")),
+		system(refBuiltInFunctionESDTTransfer, u0, F, []byte{100}),
+		system(refBuiltInFunctionSetESDTRole, u0, F, []byte(refESDTRoleLocalMint), []byte(refESDTRoleLocalBurn)),
+		system(refBuiltInFunctionSetESDTRole, u0, S, []byte(refESDTRoleNFTCreate), []byte(refESDTRoleNFTAddQuantity), []byte(refESDTRoleNFTBurn), []byte(refESDTRoleNFTAddURI), []byte(refESDTRoleNFTUpdateAttributes)),
+		self(refBuiltInFunctionESDTLocalMint, u0, F, []byte{7}),
+		self(refBuiltInFunctionESDTLocalBurn, u0, F, []byte{3}),
+		call(sh(u0), refBuiltInFunctionESDTBurn, u0, sys, F, []byte{4}),
+		call(sh(u0), refBuiltInFunctionESDTTransfer, u0, u1, F, []byte{10}),
+		self(refBuiltInFunctionESDTNFTCreate, u0, S, []byte{9}, []byte("name"), []byte{5}, []byte("hash"), []byte("attrs"), []byte("uri")),
+		self(refBuiltInFunctionESDTNFTAddQuantity, u0, S, []byte{1}, []byte{6}),
+		self(refBuiltInFunctionESDTNFTBurn, u0, S, []byte{1}, []byte{2}),
+		self(refBuiltInFunctionESDTNFTAddURI, u0, S, []byte{1}, []byte("uri2")),
+		self(refBuiltInFunctionESDTNFTUpdateAttributes, u0, S, []byte{1}, []byte("attrs2")),
+		self(refBuiltInFunctionESDTNFTTransfer, u0, S, []byte{1}, []byte{3}, u1),
+		self(refBuiltInFunctionMultiESDTNFTTransfer, u0, u1, []byte{2}, F, []byte{0}, []byte{5}, S, []byte{1}, []byte{2}),
+		system(refBuiltInFunctionESDTFreeze, u1, F),
+		call(sh(u1), refBuiltInFunctionESDTTransfer, u1, u0, F, []byte{1}), // must fail: frozen
+		system(refBuiltInFunctionESDTUnFreeze, u1, F),
+		call(sh(u1), refBuiltInFunctionESDTTransfer, u1, u0, F, []byte{1}), // must work again
+		system(refBuiltInFunctionESDTFreeze, u1, F),
+		system(refBuiltInFunctionESDTWipe, u1, F),
+		call(sh(u0), refBuiltInFunctionESDTPause, sys, refSystemAccount, F),
+		call(sh(u0), refBuiltInFunctionESDTTransfer, u0, u1, F, []byte{1}), // must fail: paused
+		call(sh(u0), refBuiltInFunctionESDTUnPause, sys, refSystemAccount, F),
+		call(sh(u0), refBuiltInFunctionESDTTransfer, u0, u1, F, []byte{1}),
+		system(refBuiltInFunctionUnSetESDTRole, u0, F, []byte(refESDTRoleLocalMint)),
+		self(refBuiltInFunctionESDTLocalMint, u0, F, []byte{7}), // must fail: role gone
+		system(refBuiltInFunctionESDTNFTCreateRoleTransfer, u0, S, u1),
+		self(refBuiltInFunctionESDTNFTCreate, u1, S, []byte{1}, []byte("n2"), []byte{}, []byte("h2"), []byte{}, []byte("u")),
+		self(refBuiltInFunctionSaveKeyValue, u0, []byte("k"), []byte("v")),
 	}
 	// account-level functions on the owner's / contract's own shards; cross-shard ones travel as messages
 	ops = append(ops,
-		call(sh(dns), vmcommon.BuiltInFunctionSetUserName, dns, u0, []byte("alice")),
-		call(sh(dns), vmcommon.BuiltInFunctionSetUserName, dns, spec.Users[len(spec.Users)-2], []byte("bob")), // a user on the last shard: travels as a message when there are several shards
-		call(sh(owner), vmcommon.BuiltInFunctionClaimDeveloperRewards, owner, sc),
-		call(sh(owner), vmcommon.BuiltInFunctionChangeOwnerAddress, owner, sc, far),
+		call(sh(dns), refBuiltInFunctionSetUserName, dns, u0, []byte("alice")),
+		call(sh(dns), refBuiltInFunctionSetUserName, dns, spec.Users[len(spec.Users)-2], []byte("bob")), // a user on the last shard: travels as a message when there are several shards
+		call(sh(owner), refBuiltInFunctionClaimDeveloperRewards, owner, sc),
+		call(sh(owner), refBuiltInFunctionChangeOwnerAddress, owner, sc, far),
 	)
 	return ops
 }
